@@ -8,6 +8,8 @@ import Qryn.Prof.Selector
     `c17cursorw …` — same over the code as it was written (pinned tree).
     `c17assemble <rows>` — rows `fp:val:ts,…` (`-` = none) in scan order; answer: the series in loop order,
     `fp=ts:v|ts:v;fp=…` (`-` = no series, `!` = fault).
+    `c17select <rows> <keys>` — the same followed by `ReshuffleSeries`; keys `fp:k,fp:k,…` give every fingerprint
+    the (numeric) identity of its label set.
     `c17fpsql <table> <hex fromDate> <type> <matchers>` — matchers `eq|ne|re|nre:<hex name>:<hex value>` comma
     separated; answer: hex of the text of the `fp_sel` sub-query, or `unsupported`.
     `c17scan <fromNs> <toNs>` — hex of the two bounds of the raw-sample scan as rendered.
@@ -104,7 +106,24 @@ def profsql (table d1 d2 sels : String) : Option String := do
   | none => some "unsupported"
   | some q => some (Qryn.hexOut q.render)
 
+def parseKey (s : String) : Option (Nat × Nat) :=
+  match s.splitOn ":" with
+  | [a, b] => match a.toNat?, b.toNat? with
+    | some a, some b => some (a, b)
+    | _, _ => none
+  | _ => none
+
+def selectOp (rows keys : String) : Option String := do
+  let rs ← allSome ((parseList rows).map parseRow)
+  let ks ← allSome ((parseList keys).map parseKey)
+  match Qryn.Read.Assembly.assemble rs with
+  | none => some "!"
+  | some ss =>
+    let out := Qryn.Read.Assembly.reshuffle (fun fp => (ks.lookup fp).getD 0) ss
+    some (if out.isEmpty then "-" else ";".intercalate (out.map showSeries))
+
 def handle : List String → Option String
+  | ["c17select", rows, keys] => selectOp rows keys
   | ["c17profsql", table, d1, d2, sels] => profsql table d1 d2 sels
   | ["c17fpsql", table, date, tp, ms] => fpsql table date tp ms
   | ["c17scan", a, b] => match a.toInt?, b.toInt? with
